@@ -533,35 +533,37 @@ def estimate_columns(rep):
                     ev_ = _local_value(st, parts[2].id, fn)
                     if isinstance(ev_, ast.AST):
                         est_c.add(unparse(ev_))
-                fexpr = val.func
-                loop = None
-                if isinstance(fexpr, ast.Name):
-                    fv = _local_value(st, fexpr.id, fn)
-                    if isinstance(fv, tuple):
-                        loop, fexpr = fv[1], None
-                    elif isinstance(fv, ast.AST):
-                        fexpr = fv
-                    else:
-                        fexpr = None
+                cands = [val.func]
+                if isinstance(val.func, ast.Name):
+                    from ..reading_rules import local_values
+                    cands = local_values(st, val.func.id, fn) or []
+                verdicts = []
+                for fexpr in cands:
+                    b_ = None
+                    if isinstance(fexpr, tuple):
+                        # for <name>, <function> in <dict>.items()
+                        t = fexpr[1].target
+                        if isinstance(t, ast.Tuple) and len(t.elts) == 2 \
+                                and unparse(t.elts[1]) == unparse(val.func):
+                            b_ = unparse(t.elts[0]) in est_c
+                    elif isinstance(fexpr, ast.Subscript):
+                        D, X = unparse(fexpr.value), unparse(fexpr.slice)
+                        if D == "est_functions":
+                            b_ = X in est_c
+                        else:
+                            # D[est] inside  for est in D  (a dict of custom estimators)
+                            q = st
+                            while q is not None and q is not fn:
+                                if isinstance(q, ast.For) and unparse(q.iter) in (
+                                        D, D + ".keys()") and unparse(q.target) == X:
+                                    b_ = X in est_c
+                                q = getattr(q, "_parent", None)
+                    verdicts.append(b_)
                 bound = None
-                if loop is not None:
-                    # for <name>, <function> in <dict>.items()
-                    t = loop.target
-                    if isinstance(t, ast.Tuple) and len(t.elts) == 2 \
-                            and unparse(t.elts[1]) == unparse(val.func):
-                        bound = unparse(t.elts[0]) in est_c
-                elif isinstance(fexpr, ast.Subscript):
-                    D, X = unparse(fexpr.value), unparse(fexpr.slice)
-                    if D == "est_functions":
-                        bound = X in est_c
-                    else:
-                        # D[est] inside  for est in D  (a dict of custom estimators)
-                        q = st
-                        while q is not None and q is not fn:
-                            if isinstance(q, ast.For) and unparse(q.iter) in (D, D + ".keys()") \
-                                    and unparse(q.target) == X:
-                                bound = X in est_c
-                            q = getattr(q, "_parent", None)
+                if verdicts and all(v is not None for v in verdicts):
+                    bound = all(verdicts)
+                elif any(v is False for v in verdicts):
+                    bound = False
                 if bound is None:
                     raise AnalysisError(
                         f"process_single_timestep: `{norm_src(st)[:70]}`: which function is "
